@@ -24,7 +24,10 @@ def from_spec(spec: dict) -> requests.Response:
         body = json.dumps(spec["json"]).encode()
     else:
         body = spec.get("text", "").encode()
-    return make_response(spec["status"], body, spec.get("ctype"))
+    r = make_response(spec["status"], body, spec.get("ctype"))
+    for k, v in (spec.get("headers") or {}).items():
+        r.headers[k] = v
+    return r
 
 
 class Script:
